@@ -62,9 +62,16 @@ def shard_temp_grid(arg) -> E.Tally:
     h, _ = H()
     t = E.Tally()
     for k in range(lo, hi):
-        if k in (32767, 32511, 12799):  # 7FFF, 7EFF, 31FF are sentinels on the wire
-            continue
         v = k / 100
+        if k in (32767, 32511, 12799):  # 7FFF, 7EFF, 31FF are sentinels on the wire: these three temperatures cannot be represented
+            t.n += 1
+            t.nontrivial += 1
+            try:
+                hx = h.hex_from_temp(v)
+                t.bad("C04:temp:unrepresentable-value-wrapped", f"hex_from_temp({v}) = {hx}, which decodes to {h.hex_to_temp(hx)!r}", {"fn": "temp_grid", "k": k})
+            except ValueError:
+                pass
+            continue
         t.n += 1
         t.nontrivial += 1
         try:
@@ -89,6 +96,11 @@ def shard_double(arg) -> E.Tally:
         if v is None:
             if h.hex_to_double(h.hex_from_double(None, factor), factor) is not None:
                 t.bad("C04:double:sentinel-lost", hx, {"fn": "double", "factor": factor, "word": hx})
+            try:  # the number this word would stand for cannot be represented: it must be refused, not turned into 'not available'
+                back = h.hex_from_double(w / factor, factor)
+                t.bad(f"C04:double:unrepresentable-value-wrapped:factor{factor}", f"hex_from_double({w / factor}, {factor}) = {back}, which decodes to {h.hex_to_double(back, factor)!r}", {"fn": "double", "factor": factor, "word": hx})
+            except ValueError:
+                pass
             continue
         t.nontrivial += 1
         back = h.hex_from_double(v, factor)
